@@ -45,6 +45,8 @@ def run(chk):
     c = [sp.Symbol(f"c{i}", real=True) for i in range(3)]
     r2 = X**2 + Y**2 + Z**2
 
+    _tasks = []
+
     def sec_0():
         fk = chk.function(MODP, "Polyhedron._find_equations")
 
@@ -66,7 +68,7 @@ def run(chk):
             axes = p.value.axes
             chk.record("equations:one_row_per_face", fk, "proved" if axes == (H.F, 4) else "refuted", "shape",
                        detail=str(axes), model={})
-    chk.section("find_equations_map_loop_over_faces", "coxeter.shapes.polyhedron::Polyhedron", sec_0)
+    _tasks.append(("find_equations_map_loop_over_faces", lambda c_, f_=sec_0: f_()))
 
     def sec_1():
         fk_ga = chk.function(MODP, "Polyhedron.get_face_area")
@@ -139,7 +141,7 @@ def run(chk):
         lhs = sp.Matrix([v0, a, b]).det() / 6
         rhs = H.dot(v0, H.cross([a[i] - v0[i] for i in range(3)], [b[i] - v0[i] for i in range(3)])) / 6
         chk.prove_eq("volume:fan_lemma", fk_v, [], lhs, rhs)
-    chk.section("get_face_area_surface_area_volume", "coxeter.shapes.polyhedron::Polyhedron", sec_1)
+    _tasks.append(("get_face_area_surface_area_volume", lambda c_, f_=sec_1: f_()))
 
     def sec_2():
         fk_c = chk.function(MODP, "Polyhedron.centroid[get]")
@@ -163,7 +165,7 @@ def run(chk):
                                   H.T, atoms, replay=replay_mesh("centroid"))
                 surface_cert(chk, f"centroid:stokes[{'xyz'[i]}]", fk_c, p.pc, num / _lead(den, m1), mx,
                              H.T, atoms, replay=replay_mesh("centroid"))
-    chk.section("centroid_reduction_loop_over_triangles", "coxeter.shapes.polyhedron::Polyhedron", sec_2)
+    _tasks.append(("centroid_reduction_loop_over_triangles", lambda c_, f_=sec_2: f_()))
 
     def sec_3():
         fk_i = chk.function(MODP, "Polyhedron._compute_inertia_tensor")
@@ -182,7 +184,7 @@ def run(chk):
                                  H.solid_moment(h, shift=c), H.T, atoms, replay=replay_mesh("inertia_tensor"))
                     if i != j:
                         chk.prove_eq(f"inertia:symmetric[{'xyz'[i]}{'xyz'[j]}]", fk_i, p.pc, ex(it[i, j]), ex(it[j, i]))
-    chk.section("inertia_tensor_about_the_centroid", "coxeter.shapes.polyhedron::Polyhedron", sec_3)
+    _tasks.append(("inertia_tensor_about_the_centroid", lambda c_, f_=sec_3: f_()))
 
     def sec_4():
         fk_t = chk.function(MODP, "Polyhedron.inertia_tensor[get]")
@@ -220,7 +222,9 @@ def run(chk):
                     h = (r2 if i == j else 0) - COORD[i] * COORD[j]
                     chk.prove_eq(f"inertia_tensor:post[{i}{j}]", fk_t, p.pc, ex(out[i, j]), abstract(h),
                                  replay=replay_mesh("inertia_tensor"))
-    chk.section("inertia_tensor_about_the_origin", "coxeter.shapes.polyhedron::Polyhedron", sec_4)
+    _tasks.append(("inertia_tensor_about_the_origin", lambda c_, f_=sec_4: f_()))
+
+    chk.run_parallel(_tasks)
 
     chk.reachable("Inv_Polyhedron facts", "coxeter.shapes.polyhedron::Polyhedron.centroid[get]", facts)
     run_bounded(chk)
